@@ -72,6 +72,17 @@ fn track_latest_tombstone(mut latest_sequence: Sequence, tombstone: &TombT) -> (
 //@end
 pub struct TombT { pub hash: u64, pub sequence: u64 }
 
+// ---- what reaches the disk index after de-dup: a hash whose winning version is a tombstone is NOT indexed (C10: a
+// flushed delete hides the older entry after reopen); a winning entry is indexed under its own hash and address
+//@item foyer-storage/src/engine/block/indexer.rs :: struct HashedEntryAddress rules=derive-clone-copy
+//@region foyer-storage/src/engine/block/recover.rs :: impl~^impl RecoverRunner$/fn run name=recovered_index_entry start=/\.filter_map\(\|\(hash, \(sequence, addr\)\)\| \{/ body=1 rules=drop-tracing
+//@head
+fn recovered_index_entry(hash: u64, sequence: Sequence, addr: EntryAddressOrTombstone) -> (r: Option<HashedEntryAddress>)
+    ensures
+        addr is Tombstone ==> r.is_none(), // @label hash_whose_newest_version_is_a_tombstone_is_not_indexed
+        addr matches EntryAddressOrTombstone::EntryAddress(a) ==> r == Some(HashedEntryAddress { hash, address: a }), // @label winning_entry_is_indexed_under_its_own_hash_and_address
+//@end
+
 // ---- BlockRecoverRunner::run: entries of one scanned blob are appended while sequences do not regress
 pub open spec fn nondecreasing(s: Seq<EntryInfo>) -> bool {
     forall|i: int, j: int| 0 <= i <= j < s.len() ==> s[i].addr.sequence <= s[j].addr.sequence
